@@ -19,6 +19,19 @@ from vloop import TICKS_PER_S
 logging.disable(logging.CRITICAL)
 
 
+def failing(fn, bad):
+    """the user function `fn`, raising for the (integer) elements listed in `bad`"""
+    if not bad:
+        return fn
+    bad = set(bad)
+
+    def g(x):
+        if isinstance(x, int) and x in bad:
+            raise ValueError("user function fails for %r" % (x,))
+        return fn(x)
+    return g
+
+
 class Run:
     def __init__(self, case):
         self.case = case
@@ -60,11 +73,11 @@ class Run:
         elif k == "timed_window":
             n = s.timed_window(sec(sp["interval"]))
         elif k == "timed_window_unique":
-            n = s.timed_window_unique(sec(sp["interval"]), key=keyfn(sp["key"]), keep=sp["keep"])
+            n = s.timed_window_unique(sec(sp["interval"]), key=failing(keyfn(sp["key"]), sp.get("userfail")), keep=sp["keep"])
         elif k == "partition":
             kw = {}
             if sp.get("key") is not None:
-                kw["key"] = keyfn(sp["key"])
+                kw["key"] = failing(keyfn(sp["key"]), sp.get("userfail"))
             n = s.partition(sp["n"], timeout=sec(sp["timeout"]) if sp.get("timeout") is not None else None, **kw)
         elif k == "zip":
             n = streamz.zip(self.sources[0], self.sources[1], maxsize=sp["maxsize"])
@@ -74,6 +87,8 @@ class Run:
             run = self
 
             async def work(x):
+                if x in (sp.get("userfail") or []):
+                    raise ValueError("mapped coroutine fails for %r" % (x,))
                 fut = run.loop.create_future()
                 run.tasks.append((x, fut))
                 run.started.append(x)
